@@ -46,8 +46,8 @@ CHECKS = {
  'C01': {
   'level': 'model_checking',
   'explanation': 'ExplicitTreeAut::CheckInclusion executed symbolically for each of the 8 implemented parameter selections (operands prepared as cli/operations.hh does: sanitisation, disjoint union, simulation of the matching direction) on every pair of automata drawn from the rule universes of the configuration, against an independent macro-state inclusion oracle; one query per (universe, selection).',
-  'bounds': {'quick': 'pairs (A,B) with |Q_A|+|Q_B| <= 4 states: 1+1 over {a/0,b/0,f/1}; 2+1, 1+2, 2+2 over {a/0,f/1}; 2+1, 1+2 over {a/0,g/2}; all rule subsets and final sets (8..16 free bits per query), all 8 selections; plus the triangular sub-universes (rules whose parent number is <= every child number, i.e. DAG-shaped automata with self loops) over 2+3 and 3+2 states and {a/0,f/1} (19 free bits) for the four selections without simulation (the upward+simulation selection on the two universes with a binary symbol only in the thorough tier); plus (added after the red-team rounds): a 2+3 sub-universe over {a/0,b/0,c/0,g/2} in which a child of A is covered only jointly by three rules of B (18 bits, selections without simulation), the selections without simulation called directly on the automata as built (no caller-side sanitisation), a 2+4 sub-universe over {a/0,g/2} with recursion in A and repeatedly entered macro-states of B (21 bits, non-recursive downward), and 16 queries under the heap model that reuses released addresses (1+2 and 2+1 over {a/0,g/2} for the selections without simulation, 2+2 over {a/0,f/1} for all 8); third red-team round: 1+1 and 2+1 over {a/0,f/1,h/1} (two unary symbols) and 1+1 over {a/0,b/0,c/0,f/1} for all 8 selections, 2+1 over {a/0,b/0,c/0,f/1} (17 bits) for the upward selections, 1+3 over {a/0,f/1} with B triangular (15 bits) for the four selections with simulation',
-             'thorough': 'as quick plus 2+2 over {a/0,b/0,f/1}, the upward+simulation selection on the binary universes, and the triangular 2+3 / 3+2 universes for all 8 selections (also with only the bigger operand restricted, 20 bits); the joint-cover universe for all 8 selections, the 2+4 universe for 4 selections (the non-recursive downward selection with simulation needs more than 1500 s there and is left out), direct calls on two more shapes, and the address-reuse model also on the joint-cover and triangular universes; the third-round universes for all 8 selections, plus 1+2 over {a/0,f/1,h/1} and {a/0,b/0,c/0,f/1}'},
+  'bounds': {'quick': 'pairs (A,B) with |Q_A|+|Q_B| <= 4 states: 1+1 over {a/0,b/0,f/1}; 2+1, 1+2, 2+2 over {a/0,f/1}; 2+1, 1+2 over {a/0,g/2}; all rule subsets and final sets (8..16 free bits per query), all 8 selections; plus the triangular sub-universes (rules whose parent number is <= every child number, i.e. DAG-shaped automata with self loops) over 2+3 and 3+2 states and {a/0,f/1} (19 free bits) for the four selections without simulation (the upward+simulation selection on the two universes with a binary symbol only in the thorough tier); plus (added after the red-team rounds): a 2+3 sub-universe over {a/0,b/0,c/0,g/2} in which a child of A is covered only jointly by three rules of B (18 bits, selections without simulation), the selections without simulation called directly on the automata as built (no caller-side sanitisation), a 2+4 sub-universe over {a/0,g/2} with recursion in A and repeatedly entered macro-states of B (21 bits, non-recursive downward), and 16 queries under the heap model that reuses released addresses (1+2 and 2+1 over {a/0,g/2} for the selections without simulation, 2+2 over {a/0,f/1} for all 8); third red-team round: 1+1 and 2+1 over {a/0,f/1,h/1} (two unary symbols) and 1+1 over {a/0,b/0,c/0,f/1} for all 8 selections, 2+1 over {a/0,b/0,c/0,f/1} (17 bits) for the upward selections, 1+3 over {a/0,f/1} with B triangular (15 bits) for the four selections with simulation; fourth round: UPACC, a 2+4 sub-universe over {a/0,b/0,f/2} (18 free bits) for the upward selection: the sibling of a child position of a binary rule of A carries two incomparable macro-states of B and the combinations differ in whether the post-image is accepting',
+             'thorough': 'as quick plus 2+2 over {a/0,b/0,f/1}, the upward+simulation selection on the binary universes, and the triangular 2+3 / 3+2 universes for all 8 selections (also with only the bigger operand restricted, 20 bits); the joint-cover universe for all 8 selections, the 2+4 universe for 4 selections (the non-recursive downward selection with simulation needs more than 1500 s there and is left out), direct calls on two more shapes, and the address-reuse model also on the joint-cover and triangular universes; the third-round universes for all 8 selections, plus 1+2 over {a/0,f/1,h/1} and {a/0,b/0,c/0,f/1}; UPACC also for upward with simulation and the three downward selections without simulation'},
   'outside': 'more than 2 states per operand outside the listed sub-universes, rank > 2, more than 4 symbols, simulation relations other than the one the library computes',
   'harnesses': [
     {'name': 'incl', 'src': 'harness/C01/incl.cc', 'tus': TREE_INCL,
